@@ -71,7 +71,7 @@ var c17Small bool // version components from {0,1,2} (they get printed, which fo
 
 func c17Num3(label string) uint64 {
 	if c17Small {
-		return uint64(verif.Choose(label, 3))
+		return uint64(verif.Choose(label, verif.Param("vals", 3)))
 	}
 	return uint64(verif.Byte(label))
 }
@@ -91,7 +91,7 @@ func c17Version(label string, withPre bool) versions.Version {
 
 // c17Allowed: the allowed set (real constructors) and an independent membership predicate.
 func c17Allowed() (versions.Set, func(versions.Version) bool) {
-	switch verif.Choose("set", 6) {
+	switch verif.Choose("set", verif.Param("sets", 6)) {
 	case 0:
 		return versions.All, func(v versions.Version) bool { return true }
 	case 1:
@@ -175,57 +175,94 @@ func (r c17Registry) ModulePackageVersions(ctx context.Context, pkgAddr regaddr.
 func (r c17Registry) ModulePackageSourceAddr(ctx context.Context, pkgAddr regaddr.ModulePackage, version versions.Version) (ModulePackageSourceAddrResponse, error) {
 	c17SourceCalls++
 	c17Asked = append(c17Asked, version)
-	return ModulePackageSourceAddrResponse{SourceAddr: wSource(wNode{0, 0})}, nil
+	return ModulePackageSourceAddrResponse{SourceAddr: c17Target(version)}, nil
 }
 
-// HarnessC17Builder: through the builder - the version recorded in the bundle, its deprecation,
-// the error when nothing is allowed, a second request answered from the cache, and the final
-// (already versioned) flavour.
+// HarnessC17Builder: through the builder - two requests against the same registry package with
+// independently chosen allowed sets (the second is served from the version-list cache): each
+// resolves to the newest offered version its own set allows, the bundle records exactly those
+// versions with their own deprecation notes, an unsatisfiable request is an error.
 func HarnessC17Builder() {
-	wReset(1, 0, 1)
+	wReset(2, 0, 1)
 	c17VersionsCalls, c17SourceCalls, c17Asked = 0, 0, nil
 	c17Small = true
 	infos := c17Offered(verif.Param("n", 2), false)
-	set, has := c17Allowed()
 	reg, _ := sourceaddrs.ParseRegistrySource(wRegPkg(0).String())
 	b, err := NewBuilder(wTarget, wFetcher{}, c17Registry{infos})
 	verif.Assume(err == nil)
 	ctx := wCtx{wTracer()}
-	best, found := c17Best(infos, has)
-	if found {
-		want := infos[best].Version
-		verif.Known("KF-C17-zero-version", want.Major == 0 && want.Minor == 0 && want.Patch == 0)
+	nReq := verif.Param("requests", 2)
+	var wants []int
+	for q := 0; q < nReq; q++ {
+		set, has := c17Allowed()
+		best, found := c17Best(infos, has)
+		if found {
+			want := infos[best].Version
+			verif.Known("KF-C17-zero-version", want.Major == 0 && want.Minor == 0 && want.Patch == 0)
+		}
+		v0 := c17VersionsCalls
+		diags := b.AddRegistrySource(ctx, reg, set, wFinder{wNode{0, 0}, q})
+		if q > 0 {
+			verif.Assert("C17-version-list-requested-once-per-package", c17VersionsCalls == v0)
+		}
+		if !found {
+			verif.Reach("none-allowed")
+			verif.Assert("C17-error-when-no-offered-version-is-allowed", diags.HasErrors())
+			return
+		}
+		verif.Reach("some-allowed")
+		verif.Assert("C17-build-succeeds-when-a-version-is-allowed", !diags.HasErrors())
+		if diags.HasErrors() {
+			return
+		}
+		wants = append(wants, best)
 	}
-	diags := b.AddRegistrySource(ctx, reg, set, wFinder{wNode{0, 0}, 0})
-	if !found {
-		verif.Reach("none-allowed")
-		verif.Assert("C17-error-when-no-offered-version-is-allowed", diags.HasErrors())
-		return
-	}
-	verif.Reach("some-allowed")
-	want := infos[best].Version
-	verif.Assert("C17-build-succeeds-when-a-version-is-allowed", !diags.HasErrors())
-	if diags.HasErrors() {
-		return
-	}
-	// second request for the same package: same answer, no new registry calls
-	v1, s1 := c17VersionsCalls, c17SourceCalls
-	diags = b.AddRegistrySource(ctx, reg, set, wFinder{wNode{0, 1}, 0})
-	verif.Assert("C17-second-request-served-from-cache", !diags.HasErrors() && c17VersionsCalls == v1 && c17SourceCalls == s1)
 	bundle, err := b.Close()
 	verif.Assert("close-succeeds", err == nil)
 	if err != nil {
 		return
 	}
 	vs := bundle.RegistryPackageVersions(wRegPkg(0))
-	verif.Assert("C17-exactly-the-newest-allowed-version-recorded", len(vs) == 1 && vs[0].Same(want))
-	dep := bundle.RegistryPackageVersionDeprecation(wRegPkg(0), want)
-	if infos[best].Deprecation == nil {
-		verif.Assert("C17-no-deprecation-invented", dep == nil)
-	} else {
-		verif.Assert("C17-deprecation-is-the-selected-versions", dep != nil && dep.Reason == infos[best].Deprecation.Reason && dep.Link == infos[best].Deprecation.Link)
+	for _, v := range vs {
+		ok := false
+		for _, w := range wants {
+			if v.Same(infos[w].Version) {
+				ok = true
+			}
+		}
+		verif.Assert("C17-only-selected-versions-recorded", ok)
 	}
-	p1, e1 := bundle.LocalPathForRegistrySource(reg, want)
-	p2, e2 := bundle.LocalPathForRemoteSource(wSource(wNode{0, 0}))
-	verif.Assert("C17-registry-source-resolves-to-the-named-address", e1 == nil && e2 == nil && p1 == p2)
+	for _, w := range wants {
+		want := infos[w].Version
+		ok := false
+		for _, v := range vs {
+			if v.Same(want) {
+				ok = true
+			}
+		}
+		verif.Assert("C17-newest-allowed-version-recorded", ok)
+		dep := bundle.RegistryPackageVersionDeprecation(wRegPkg(0), want)
+		if infos[w].Deprecation == nil {
+			verif.Assert("C17-no-deprecation-invented", dep == nil)
+		} else {
+			verif.Assert("C17-deprecation-is-the-selected-versions", dep != nil && dep.Reason == infos[w].Deprecation.Reason && dep.Link == infos[w].Deprecation.Link)
+		}
+		p1, e1 := bundle.LocalPathForRegistrySource(reg, want)
+		p2, e2 := bundle.LocalPathForRemoteSource(c17Target(want))
+		verif.Assert("C17-registry-source-resolves-to-the-named-address", e1 == nil && e2 == nil && p1 == p2)
+	}
+	// each selected version's address was asked for exactly once
+	for i, a := range c17Asked {
+		for j, b2 := range c17Asked {
+			if i < j {
+				verif.Assert("C17-source-address-requested-once-per-version", !a.Same(b2))
+			}
+		}
+	}
+}
+
+// c17Target: the registry names a different package for odd and even patch numbers, so that a
+// mix-up between versions shows in the lookups.
+func c17Target(v versions.Version) sourceaddrs.RemoteSource {
+	return wSource(wNode{int(v.Patch % 2), 0})
 }
